@@ -18,7 +18,7 @@ Bad(c) == IF ~c.clean THEN {}
 Init == l = 1 /\ TLCSet(1, {})
 Next == /\ l <= Len(Lines)
         /\ LET b == Bad(Lines[l]) IN
-           IF b = {} THEN TRUE ELSE TLCSet(1, TLCGet(1) \cup {l}) /\ PrintT(<<"REJECT", l, Lines[l].outcome, b>>)
+           IF b = {} THEN TRUE ELSE TLCSet(1, TLCGet(1) \cup {l}) /\ PrintT(ToJson([rej |-> l, info |-> <<Lines[l].outcome, b>>]))
         /\ l' = l + 1
-Done == TLCGet(1) = {} /\ TLCGet("stats").diameter - 1 = Len(Lines)
+Done == PrintT(ToJson([rejected_total |-> Cardinality(TLCGet(1))])) /\ TLCGet(1) = {} /\ TLCGet("stats").diameter - 1 = Len(Lines)
 =============================================================================
